@@ -115,7 +115,8 @@ def generate(rng, seed, part):
             ops.append({"op": "fill", "n": a, "i": rng.randrange(n) if n else 0})
     for _ in range(rng.randint(0, 2)):
         ops.append({"op": "invalidate", "a": rng.randrange(nodes), "out": nodes,
-                    "how": rng.choice(["sub", "isub", "add_array", "mul_array", "bare", "div_array"])})
+                    "how": rng.choice(["sub", "isub", "add_array", "mul_array", "bare", "div_array", "sub_free", "isub_free",
+                                       "sub_array_free"])})
         nodes += 1
         # an invalid histogram combined with valid ones / filled further must stay invalid (never wrong numbers)
         for _ in range(rng.randint(0, 2)):
@@ -397,6 +398,17 @@ def execute(plan, ctx):
                     c -= a.h * 0.5
                     return c
                 ok, res = attempt(g)
+            elif how in ("sub_free", "isub_free", "sub_array_free"):
+                def f3():
+                    with config.enable_free_arithmetics():
+                        if how == "sub_free":
+                            return a.h - a.h * 0.5
+                        if how == "sub_array_free":
+                            return a.h - arr * 0.0
+                        c = a.h.copy()
+                        c -= a.h * 0.5
+                        return c
+                ok, res = attempt(f3)
             elif how in ("add_array", "mul_array", "div_array"):
                 def f2():
                     with config.enable_free_arithmetics():
